@@ -264,11 +264,8 @@ func main() {
 	if nok == 0 {
 		vf.Fatal("no route set was accepted by the generator: %v", rejected)
 	}
-	if err := sc.Build("driver", "driver.bin"); err != nil {
-		// route sets are plain specs: a package that does not compile is C02's business, but it
-		// would make this check blind, so it is a harness error here
-		vf.Fatal("%v", err)
-	}
+	// route sets are plain specs: a regenerated router that does not compile routes nothing
+	sc.BuildChecked(r, "driver", "driver.bin")
 	tBuild := time.Since(t0).Seconds() - tGen
 	sum := sc.RunDriver(r, "driver.bin", nil)
 	r.Set("phase_seconds", map[string]float64{"generate": tGen, "build": tBuild, "drive": time.Since(t0).Seconds() - tGen - tBuild})
